@@ -442,8 +442,13 @@ class PooledClient(Entity):
                 delay,
             )
 
-            # Wait for retry delay
-            yield delay
+            # Wait for retry delay. The pool's release events (idle-timeout
+            # check) are stamped relative to the release instant, so they are
+            # handed to the engine now rather than after the back-off.
+            if release_events:
+                yield delay, release_events
+            else:
+                yield delay
 
             # Create retry event
             retry_event = Event(
@@ -462,10 +467,7 @@ class PooledClient(Entity):
                 },
             )
 
-            all_events = [retry_event]
-            if release_events:
-                all_events.extend(release_events)
-            return all_events
+            return [retry_event]
 
         # No more retries - fail the request
         self._in_flight.pop(flight_key)
